@@ -91,6 +91,50 @@ func checkWire(c wireCase) error {
 	if perr != nil || !pfq || !pn.Equal(n) {
 		return pbt.Errf("Name(%q).String()=%q does not denote the same labels", s, ps)
 	}
+	// ... and for a name a program put together itself: every octet raw except the two that cannot
+	// be (a dot inside a label, a backslash). It is a valid name for the packer, and every printing
+	// path has to escape it (that is what the escaping-on-output helpers are for)
+	var rb []byte
+	for _, l := range n {
+		for _, b := range l {
+			if b == '.' || b == '\\' {
+				rb = append(rb, '\\')
+			}
+			rb = append(rb, b)
+		}
+		rb = append(rb, '.')
+	}
+	raw := string(rb)
+	if len(n) == 0 {
+		raw = "."
+	}
+	if roff, err := dns.PackDomainName(raw, buf, 0, nil, false); err != nil || !bytes.Equal(buf[:roff], w) {
+		return pbt.Errf("PackDomainName of the raw spelling %q: err=%v, octets %x want %x", short(raw), err, buf[:max(roff, 0)], w)
+	}
+	printed := map[string]string{
+		"Name.String()":      dns.Name(raw).String(),
+		"RR_Header.String()": strings.SplitN((&dns.RR_Header{Name: raw, Rrtype: dns.TypeA, Class: 1}).String(), "\t", 2)[0],
+		"A.String()":         strings.SplitN((&dns.A{Hdr: dns.RR_Header{Name: raw, Rrtype: dns.TypeA, Class: 1}, A: []byte{192, 0, 2, 1}}).String(), "\t", 2)[0],
+		"RFC3597.String()":   strings.SplitN((&dns.RFC3597{Hdr: dns.RR_Header{Name: raw, Rrtype: 65280, Class: 1}, Rdata: "00"}).String(), "\t", 2)[0],
+		"Question.String()":  strings.SplitN(strings.TrimPrefix((&dns.Question{Name: raw, Qtype: 1, Qclass: 1}).String(), ";"), "\t", 2)[0],
+	}
+	for _, how := range []string{"Name.String()", "RR_Header.String()", "A.String()", "RFC3597.String()", "Question.String()"} {
+		txt := printed[how]
+		for i := 0; i < len(txt); i++ {
+			if txt[i] < ' ' || txt[i] > '~' || (txt[i] == ' ' && (i == 0 || txt[i-1] != '\\')) {
+				return pbt.Errf("%s of the raw name %q prints the octet 0x%02x unescaped: %q", how, short(raw), txt[i], short(txt))
+			}
+		}
+		pn, pfq, perr := wm.UnescName(txt)
+		if perr != nil || !pfq || !pn.Equal(n) {
+			return pbt.Errf("%s of the raw name %q is %q, which does not denote the same labels (err=%v)", how, short(raw), short(txt), perr)
+		}
+		for i := 0; i < len(txt); i++ {
+			if strings.IndexByte(`"();@'`, txt[i]) >= 0 && (i == 0 || txt[i-1] != '\\') {
+				return pbt.Errf("%s of the raw name %q leaves %q unescaped: %q", how, short(raw), txt[i], short(txt))
+			}
+		}
+	}
 	return nil
 }
 
